@@ -211,15 +211,75 @@ def _wrap(inner, how):
     raise ValueError(how)
 
 
+# How the returned data is REPRESENTED in memory (same logical values): each form was confirmed to be accepted by the
+# unchanged code (Python lists / tuples / floats are refused by the ETS writer and are not generated).
+RET_FORMS = ['native', 'big', 'strided', 'reversed', 'big_reversed', 'readonly', 'buffer', 'broadcast', 'zero_d', 'np_scalar',
+             'row2d', 'input_view']
+IN_FORMS = ['native', 'big', 'strided', 'fortran']      # how read_ths_from_ram is given the samples
+
+
+def _represent(val, form, state):
+    """val: freshly computed native 1-D array.  Returns an array with the same logical values in another representation."""
+    k = len(val)
+    if form == 'big':
+        return val.astype(val.dtype.newbyteorder('>'))
+    if form == 'strided':
+        tmp = np.full(2 * k + 1, 77, dtype=val.dtype)
+        tmp[1::2] = val
+        return tmp[1::2]
+    if form == 'reversed':
+        return val[::-1].copy()[::-1]
+    if form == 'big_reversed':
+        return val[::-1].astype(val.dtype.newbyteorder('>'))[::-1]
+    if form == 'readonly':
+        val.setflags(write=False)
+        return val
+    if form == 'buffer':            # the same work buffer is returned by every call
+        buf = state.get('buf')
+        if buf is None or buf.shape != val.shape or buf.dtype != val.dtype:
+            buf = state['buf'] = np.empty_like(val)
+        buf[:] = val
+        return buf
+    if form == 'broadcast' and k and np.all(val == val[0]):
+        return np.broadcast_to(val[0], (k,))
+    if form == 'zero_d' and k == 1:
+        return val.reshape(())
+    if form == 'np_scalar' and k == 1:
+        return val[0]
+    if form == 'row2d':
+        return val.reshape(1, k)
+    return val
+
+
+def _in_samples(a, form):
+    """The samples array handed to read_ths_from_ram in another memory layout (same values)."""
+    n, L = a.shape
+    if form == 'big' and a.dtype.itemsize > 1:
+        return a.astype(a.dtype.newbyteorder('>'))
+    if form == 'strided' and n:
+        big = np.full((n, 2 * L + 1), 55, dtype=a.dtype)
+        big[:, 1::2] = a
+        return big[:, 1::2]
+    if form == 'fortran':
+        return np.asfortranarray(a)
+    return a
+
+
 def make_case(rng, n, pattern, L=None, out_len=None, dtype=None, out_dtype=None, out_kind=None, select=None, full=None,
-              history=None, old=None, overwrite=None, kwargs=None, call=None):
+              history=None, old=None, overwrite=None, kwargs=None, call=None, ret_form=None, in_form=None):
     """pattern is over the EFFECTIVE input (after select); full = number of traces of the underlying set.
     history: list of ('check', script, catch) | ('str',) | ('report',); script = what the function does at the calls of
     that check() (its length is nb_traces).  old: None or (n_old, L_old): the output file exists, written by a previous
     Synchronizer run that accepted n_old traces of L_old samples."""
+    ret_form = ret_form or rng.choice(['native'] * 6 + RET_FORMS)
+    in_form = in_form or rng.choice(['native'] * 5 + IN_FORMS)
+    if ret_form == 'broadcast' and L is None:
+        L = 1
+    if ret_form in ('zero_d', 'np_scalar') and out_len is None:
+        out_len = 1
     L = L or rng.randint(1, 5)
     dtype = dtype or rng.choice(['uint8', 'int16', 'float32'])
-    out_dtype = out_dtype or rng.choice(['float32', 'float64', 'int16', 'int32'])
+    out_dtype = out_dtype or rng.choice(['float32', 'float64', 'int16', 'int32', 'int64'])
     full = full if full is not None else n
     lo, hi = (0, 255) if dtype == 'uint8' else (-300, 300)
     samples = [[rng.randint(lo, hi) for _ in range(L)] for _ in range(full)]
@@ -245,6 +305,13 @@ def make_case(rng, n, pattern, L=None, out_len=None, dtype=None, out_dtype=None,
             'old': None, 'kwargs': kwargs, 'callable': call or rng.choice(CALLABLES)}
     if case['callable'] == 'second' and not kwargs:
         case['kwargs'] = {'off2': 2 * rng.randint(-4, 4), 'tag': 'second'}
+    case['ret_form'] = ret_form
+    case['in_form'] = in_form
+    if ret_form == 'input_view':    # the function returns a view of the input trace's own samples: no offset, no longer than it
+        case['offs2'] = [0] * total
+        case['out_len'] = min(case['out_len'], L)
+        if case['kwargs']:
+            case['kwargs'] = dict(case['kwargs'], off2=0)
     if old is not None:
         n_old, L_old = old
         case['old'] = {'samples': [[rng.randint(-50, 50) for _ in range(L_old)] for _ in range(n_old)],
@@ -281,11 +348,11 @@ def _report(sync, how):
     return _parse_report(text)
 
 
-def _ths(samples, plaintext, key, dtype):
+def _ths(samples, plaintext, key, dtype, in_form='native'):
     import estraces
     n = len(samples)
     L = len(samples[0]) if n else 3
-    return estraces.read_ths_from_ram(samples=np.array(samples, dtype=dtype).reshape(n, L),
+    return estraces.read_ths_from_ram(samples=_in_samples(np.array(samples, dtype=dtype).reshape(n, L), in_form),
                                       plaintext=np.array(plaintext, dtype='uint8').reshape(n, 3),
                                       key=np.array(key, dtype='uint8').reshape(n, 2))
 
@@ -300,7 +367,10 @@ class SyncKind(Kind):
     rule = ('scared.Synchronizer(read_ths_from_ram set or sub-set, ETS file name as str/Path, scripted function).run(): ALL 3^n '
             'accept/None/raise patterns for n <= 5 (quick) / 6 (thorough), failure runs >= 8 and >= 16 (warning path) at the start, '
             'middle and end, first/last rejected, all rejected, all accepted, empty input set, returned data shorter/equal/longer '
-            'than the trace, several exception classes, sub-sets with repeated traces, extra kwargs, the user callable drawn from 13 '
+            'than the trace, several exception classes, sub-sets with repeated traces, extra kwargs, the returned array in 12 memory '
+            'representations (big-endian int16/32/64 float32/64, strided, negative stride, read-only, one shared work buffer, zero-stride '
+            'broadcast, 0-d, numpy scalar, (1,k), a view of the input samples) x input samples native / big-endian / strided / Fortran, '
+            'the user callable drawn from 13 '
             'signatures (see the history kind); non-trivial = at least one '
             'accepted and one rejected trace')
 
@@ -337,6 +407,18 @@ class SyncKind(Kind):
                 n = rng.randint(4, 9)
                 pat = [rng.choice('AAANR') for _ in range(n)]
                 yield make_case(rng, n, pat, L=L, out_len=k, dtype=dtype)
+        # representation of the returned data: every form x every returned dtype (big-endian: every width), and of the input set
+        for form in RET_FORMS:
+            if form in ('native', 'input_view'):
+                continue
+            for out_dtype in ('int16', 'int32', 'int64', 'float32', 'float64'):
+                yield make_case(rng, 5, 'ARANA', out_dtype=out_dtype, ret_form=form, in_form='native')
+        for in_form in IN_FORMS:
+            for dtype in ('uint8', 'int16', 'float32'):
+                yield make_case(rng, 6, 'AANARA', L=5, dtype=dtype, ret_form='input_view', in_form=in_form)
+                yield make_case(rng, 4, 'RAAA', L=3, out_len=2, dtype=dtype, ret_form='native', in_form=in_form)
+                yield make_case(rng, 4, 'AAAA', L=4, dtype=dtype, ret_form='big', in_form=in_form,
+                                history=[('check', 'AA', True)])
         # --- random structure
         nrand = 90 if tier == 'quick' else 1500
         for _ in range(nrand):
@@ -362,7 +444,9 @@ class SyncKind(Kind):
         import estraces
         import scared
         from estraces.formats.ets_writer import ETSWriterError
-        ths = _ths(case['samples'], case['plaintext'], case['key'], case['dtype'])
+        ths = _ths(case['samples'], case['plaintext'], case['key'], case['dtype'], case.get('in_form', 'native'))
+        ret_form = case.get('ret_form', 'native')
+        rstate = {}
         if case['select'] is not None:
             ths = ths[case['select']]
         pattern = _pattern(case)
@@ -382,7 +466,10 @@ class SyncKind(Kind):
             if p == 'R':
                 return _raise(_at(case['exc'], i, 'value'))
             k = case['out_len']
-            return (np.resize(arr.astype('float64'), k) + (_at(case['offs2'], i, 0) + int(kw.get('off2', 0))) / 2).astype(case['out_dtype'])
+            if ret_form == 'input_view':
+                return trace_object.samples.array[:k]
+            val = (np.resize(arr.astype('float64'), k) + (_at(case['offs2'], i, 0) + int(kw.get('off2', 0))) / 2).astype(case['out_dtype'])
+            return _represent(val, ret_form, rstate)
 
         user_callable = _wrap(function, case.get('callable', 'plain'))
         core.WORK.mkdir(exist_ok=True)
@@ -603,13 +690,14 @@ class SyncKind(Kind):
                 'data_len': 'shorter' if case['out_len'] < len((case['samples'] or [[0] * 3])[0]) else
                             'equal' if case['out_len'] == len((case['samples'] or [[0] * 3])[0]) else 'longer',
                 'subset': case['select'] is not None, 'kwargs': case.get('kwargs') is not None,
-                'callable': case.get('callable', 'plain')}
+                'callable': case.get('callable', 'plain'), 'ret_form': case.get('ret_form', 'native'),
+                'in_form': case.get('in_form', 'native'), 'out_dtype': case['out_dtype']}
 
     def tags(self, case, obs):
         return ['synchronizer']
 
     def sample(self, case, obs):
-        c = {k: case.get(k) for k in ('pattern', 'out_len', 'out_kind', 'dtype', 'out_dtype', 'select', 'history', 'segments', 'overwrite', 'kwargs', 'callable')}
+        c = {k: case.get(k) for k in ('pattern', 'out_len', 'out_kind', 'dtype', 'out_dtype', 'select', 'history', 'segments', 'overwrite', 'kwargs', 'callable', 'ret_form', 'in_form')}
         c['old_rows'] = None if case.get('old') is None else len(case['old']['samples'])
         o = {k: obs.get(k) for k in ('processed', 'synchronized', 'second', 'run', 'warnings', 'report', 'history')}
         if obs.get('rows'):
@@ -621,6 +709,14 @@ class SyncKind(Kind):
         if case.get('callable', 'plain') != 'plain':
             c = dict(case)
             c['callable'] = 'plain'
+            yield c
+        if case.get('in_form', 'native') != 'native':
+            c = dict(case)
+            c['in_form'] = 'native'
+            yield c
+        if case.get('ret_form', 'native') not in ('native', 'input_view'):
+            c = dict(case)
+            c['ret_form'] = 'native'
             yield c
         for k in range(len(case.get('history') or [])):
             c = dict(case)
